@@ -258,10 +258,66 @@ def rule_5(ctx):
     c02.rule_10(ctx)
 
 
+TEXT_CONSTANTS = {'A1': 1.0, 'A2': True, 'A3': 0.0, 'A4': False, 'A5': 'abc', 'A6': 12.5, 'A7': 'He said "hi"', 'A8': '  two  words ', 'A9': '\u00c4bC',
+                  'A10': 7, 'A11': 1, 'A12': 0}
+TEXT_FORMS = ['=LEN({c})', '={c}&"|"', '=UPPER({c})', '=LEFT({c},2)', '=EXACT({c},"True")', '=CONCATENATE({c},"x",{c})', '=RIGHT({c},1)&MID({c},2,1)']
+TEXT_IDENTITIES = {
+    'I1': ('=EXACT(LEFT(A7,3)&RIGHT(A7,LEN(A7)-3),A7)', True), 'I2': ('=EXACT(MID(A7,1,4),LEFT(A7,4))', True),
+    'I3': ('=LEN(A5&A7)=LEN(A5)+LEN(A7)', True), 'I4': ('=EXACT(REPLACE(A7,4,2,"XY"),LEFT(A7,3)&"XY"&MID(A7,6,LEN(A7)))', True),
+    'I5': ('=FIND("i",A7,1)', 6), 'I6': ('=FIND("i",A7,7)', 11), 'I7': ('=LEN(A7)', 12), 'I8': ('=TRIM(A8)', 'two words'),
+    'I9': ('=UPPER(A9)', '\u00c4BC'), 'I10': ('=LOWER(A9)', '\u00e4bc'), 'I11': ('=LEFT(A5,0)', ''), 'I12': ('=MID(A5,2,50)', 'bc'),
+    'I13': ('=RIGHT(A7,4)', '"hi"'), 'I14': ('=EXACT(A5,"ABC")', False), 'I15': ('=FIND("I",A7)', '#VALUE!'),
+}
+
+
+def rule_6(ctx):
+    """A witness workbook whose constant cells hold numbers, booleans and texts side by side (1.0 next to TRUE, 0.0 next to
+    FALSE, 1 and 0, quotes, blanks, non-ASCII), interpreted as written: every text function applied to a constant cell gives what
+    it gives in a workbook that holds that constant alone - a value is converted to the text form of ITS OWN type whatever else
+    the workbook holds; and the composition identities of the statement hold on hand-worked instances."""
+    from . import workbook as W
+    from . import scenarios as S
+    from .c10 import _as_value
+    anchor = ctx.mod('evaluator').func('Evaluator.evaluate')
+    cells = dict(TEXT_CONSTANTS)
+    rows = []
+    for c in TEXT_CONSTANTS:
+        for j, form in enumerate(TEXT_FORMS):
+            addr = f'{chr(66 + j)}{c[1:]}'
+            cells[addr] = form.format(c=c)
+            rows.append((c, addr, form))
+    for a, (f, _) in TEXT_IDENTITIES.items():
+        cells[a] = f
+    wb = W.Workbook(ctx, cells)
+    order = list(TEXT_CONSTANTS)
+    for c in order:                 # every constant is read once before the functions run (the way a sheet recalculates)
+        wb.value('Sheet1!' + c)
+    alone = {}
+    for c, addr, form in rows:
+        if c not in alone:
+            small = {'A1': TEXT_CONSTANTS[c]}
+            for j, fm in enumerate(TEXT_FORMS):
+                small[f'{chr(66 + j)}1'] = fm.format(c='A1')
+            alone[c] = W.Workbook(ctx, small)
+        want = alone[c].value(f'Sheet1!{addr[0]}1')
+        got = wb.value('Sheet1!' + addr)
+        ctx.expect(S.same(got, want), anchor, f'text of a constant among other constants: {form.format(c=repr(TEXT_CONSTANTS[c]))}',
+                   f'{form.format(c=c)} with {c} = {TEXT_CONSTANTS[c]!r} evaluates to {got!r} in the workbook that also holds '
+                   f'{sorted(set(map(repr, TEXT_CONSTANTS.values())))[:6]}..., and to {want!r} where the constant stands alone')
+    for a, (f, w) in TEXT_IDENTITIES.items():
+        got = wb.value('Sheet1!' + a)
+        if isinstance(got, tuple) and got and got[0] == 'error-class':
+            got = ('error', W.error_code(ctx, got[1]))
+        ctx.expect(S.same(got, _as_value(w)), anchor, f'text identity: {f}',
+                   f'{f} (A5 = "abc", A7 = He said "hi", A8 = "  two  words ", A9 = "\u00c4bC") evaluates to {got!r}, expected {w!r}')
+    ctx.floor(90, 'text cells')
+
+
 RULES = [
     ('C17.1', 'index forms of the slices (affine)', rule_1),
     ('C17.2', 'bounds decisions over the (length, position, count) grid', rule_2),
     ('C17.3', 'coercion of parameters; text form of numbers', rule_3),
     ('C17.4', 'simple maps', rule_4),
     ('C17.5', 'text constants keep their characters up to the function call (shared with C02.10)', rule_5),
+    ('C17.6', 'witness workbook: constants of every type side by side; composition identities', rule_6),
 ]
